@@ -13,7 +13,11 @@
    time (TxPool.GetTxs(now) drops what is expired), so transactions of an earlier epoch are gone for good once a
    block of a later epoch arrived, and the clause is about the live ones:
 
-        after every InsertBlock / InsertConfirms:   pool = Live(now) \ OnChain(head)
+        after every InsertBlock / InsertConfirms:   pool = (seen \cap Live(now)) \ OnChain(head)
+
+   where seen = the transactions the node has ever been given: those submitted to its pool before the run (any
+   member of Pend: most transactions of other miners' blocks have never been in our pool) and those of every block
+   it stored - a side fork's or an abandoned fork's transactions are pending even if they were never submitted here.
 
    STABLE.  ND deputies, a block is stable with Q = ceil(2 ND / 3) signers, the miner included; the node is an
    observer and never signs.  A block may arrive carrying enough confirms (c = 1: it becomes stable inside the same
@@ -32,17 +36,18 @@
    branches (they descend from the old stable block) are still cached.  PruneFirst = TRUE is the negative control:
    pruning first loses the pool update of a fork switch that comes with a stable change across epochs.
 
-   Every transaction of the universe is pending when the run starts. *)
+   The transactions that are pending when the run starts are one of the sets in Pend. *)
 EXTENDS Naturals, FiniteSets, TLC
-CONSTANTS NB, ND, NE, Tx, TxEp, PruneFirst
+CONSTANTS NB, ND, NE, Tx, TxEp, Pend, PruneFirst
 Block == 1..NB
 G == 0
 Q == (2 * ND + 2) \div 3
 Epoch == 0..(NE - 1)
-VARIABLES parent, txs, ep,              \* the universe
+VARIABLES parent, txs, ep, txep,        \* the universe (txep = TxEp: the transactions and their epochs, for the binding)
           known, conf, stable, head,    \* the node's store: stable chain + unconfirmed tree
-          cache, now, pool
-vars == <<parent, txs, ep, known, conf, stable, head, cache, now, pool>>
+          cache, now, pool,
+          seen                          \* history: every transaction submitted or stored in a block so far
+vars == <<parent, txs, ep, txep, known, conf, stable, head, cache, now, pool, seen>>
 RECURSIVE Anc(_)
 Anc(b) == IF b = G THEN {G} ELSE {b} \cup Anc(parent[b])
 H(b) == Cardinality(Anc(b)) - 1
@@ -60,8 +65,9 @@ TxsOK(p, e, t) == /\ \A b \in Block : \A x \in t[b] : TxEp[x] = e[b]       \* ex
 Init == /\ parent \in {f \in [Block -> Block \cup {G}] : \A b \in Block : f[b] < b}
         /\ ep \in {e \in [Block -> Epoch] : EpOK(parent, e)}
         /\ txs \in {t \in [Block -> {s \in SUBSET Tx : Cardinality(s) <= 1}] : TxsOK(parent, ep, t)}
+        /\ txep = TxEp
         /\ known = {G} /\ conf = {} /\ stable = G /\ head = G
-        /\ cache = {G} /\ now = 0 /\ pool = Tx
+        /\ cache = {G} /\ now = 0 /\ pool \in Pend /\ seen = pool
 \* ---- store.ChainDatabase.SetStableBlock, ForkManager (as in Consensus.tla) ----
 Unconf(kn, st) == {b \in kn : st \in Anc(b) /\ b # st}
 Prune(kn, st) == {b \in kn : b \in Anc(st) \/ st \in Anc(b)}
@@ -97,8 +103,8 @@ InsertBlock(b, c) ==
          nw2 == Max(now, ep[b])
      IN /\ conf' = IF c = 1 THEN conf \cup {b} ELSE conf
         /\ stable' = st2 /\ known' = kn2 /\ head' = hd2 /\ cache' = ca2 /\ now' = nw2
-        /\ pool' = p2 \cap Live(nw2)
-  /\ UNCHANGED <<parent, txs, ep>>
+        /\ pool' = p2 \cap Live(nw2) /\ seen' = seen \cup txs[b]
+  /\ UNCHANGED <<parent, txs, ep, txep>>
 \* a confirm packet that completes the quorum of a stored block above the stable one
 InsertConfirms(b) ==
   /\ b \in known \ {G} /\ b \notin conf /\ H(b) > H(stable)
@@ -110,12 +116,12 @@ InsertConfirms(b) ==
          p2 == IF hd2 # head THEN Changed(head, hd2, cas, pool) ELSE pool
      IN /\ conf' = conf \cup {b} /\ stable' = b /\ known' = kn2 /\ head' = hd2 /\ cache' = ca2
         /\ pool' = p2 \cap Live(now)
-  /\ UNCHANGED <<parent, txs, ep, now>>
+  /\ UNCHANGED <<parent, txs, ep, txep, now, seen>>
 Next == \/ \E b \in Block, c \in {0, 1} : InsertBlock(b, c)
         \/ \E b \in Block : InsertConfirms(b)
 Spec == Init /\ [][Next]_vars
 \* the clause, as a state invariant
-PoolIsOffChain == pool = Live(now) \ OnChain(head)
+PoolIsOffChain == pool = (seen \cap Live(now)) \ OnChain(head)
 HeadOK == head \in known /\ stable \in Anc(head) /\ \A b \in known : b \in Anc(stable) \/ stable \in Anc(b)
 \* the branches of any possible fork switch are cached (why pruning after the switch is safe)
 UnconfCached == Unconf(known, stable) \subseteq cache
